@@ -32,8 +32,8 @@ PROPS = {
     },
     "C15": {
         "suites": [("scope", 1500, 6000)],
-        "proved_scope": "for every tree, node and vocabulary: deduplicate_namespaces only deletes namespace-node children: per node the declarations after are a sublist of those before [C15_subset, C15_same_nodes], the tree without namespace nodes is unchanged [C15_frame]; 'second call removes nothing' and 'still serialises' are false as written [C15_idem_false, C15_serialises_false, closed witnesses evaluated in the model; the model of to_string's MissingPrefix outcome is correspondence-checked by the `scope writable` requests]",
-        "not_proved": "C15_serialises_partial (a guard under which dedup keeps every name writable, e.g. no prefix redeclared anywhere below the deduplicated node) and C15_idem_partial: need an invariant over the traversal fold (FullnameSerializer stack + DeduplicateTracker); reparse equality needs the serialiser / parser layers (C01, C10)",
+        "proved_scope": "for every tree, node and vocabulary: deduplicate_namespaces only deletes namespace-node children: per node the declarations after are a sublist of those before [C15_subset, C15_same_nodes], the tree without namespace nodes is unchanged [C15_frame]; deduplicate_namespaces(root) equals a recursive rebuild of the tree [C15_recursive_form]; under NoShadowing (no prefix declared twice on any root-to-node path, xml not declared) every name that to_string could write before deduplicate_namespaces(root) can be written after [C15_serialises_partial]; 'second call removes nothing' and 'still serialises' are false as written [C15_idem_false, C15_serialises_false, closed witnesses evaluated in the model; the model of to_string's MissingPrefix outcome (namesWritable) is correspondence-checked by the `scope writable` requests]",
+        "not_proved": "C15_serialises_partial for deduplicate_namespaces on an inner node (proved for the root call); C15_idem_partial (idempotence also fails without shadowing: removing xmlns=\"A\" un-marks the tracker entry that protected a prefixed declaration below); 'reparses deep_equal' needs the serialiser / parser layers (C01, C10): here only 'every name has a prefix' (the only way to_string can fail on names)",
         "modelled": EXTERNAL,
         "assumptions": ["removing a namespace node never triggers text consolidation (its siblings of the same category are namespace nodes): read off Xot::remove / previous_sibling / next_sibling"],
     },
